@@ -34,8 +34,9 @@ func init() {
 			}
 			return []runner.Phase{
 				{Name: "cut-enum", Variant: "plain", Cases: m, Run: c07enum, CaseTimeout: 120 * time.Second, Required: []string{"cuts_injected", "frames_checked"}},
+				{Name: "queued-cancel", Variant: "race", Cases: n / 10, Run: c07queuedCancel, CaseTimeout: 120 * time.Second, Required: []string{"queued_cancel_cases", "requests_cancelled_while_queued"}},
 				{Name: "tcp", Variant: "race", Cases: n / 2, Run: c07tcp, CaseTimeout: 180 * time.Second, Required: []string{"tcp_scenarios", "tcp_slow_reader_scenarios", "tcp_frames_checked", "tcp_failed_writes"}},
-				{Name: "mixed", Variant: "race", Cases: n, Run: c07mixed, CaseTimeout: 180 * time.Second, Required: []string{"cuts_injected", "frames_checked", "coalesced_scenarios", "direct_scenarios", "stall_scenarios", "huge_frame_scenarios"}},
+				{Name: "mixed", Variant: "race", Cases: n, Run: c07mixed, CaseTimeout: 180 * time.Second, Required: []string{"cuts_injected", "frames_checked", "coalesced_scenarios", "direct_scenarios", "stall_scenarios", "huge_frame_scenarios", "flood_scenarios"}},
 			}
 		},
 	})
@@ -132,6 +133,17 @@ func c07mixed(c *runner.Ctx, i int) {
 		c.Add("stall_scenarios", 1)
 	default:
 		ec.writeCutAt = int64(100 + r.Intn(12000))
+	}
+	if i%40 == 7 {
+		// a flood: well over a thousand requests land in one coalescing window, and the write is cut inside it
+		ec.callers, ec.perCaller = 1300+r.Intn(700), 1
+		ec.coalesce = 20 * time.Millisecond
+		ec.timeout = 2 * time.Second
+		ec.hugeFrames, ec.padTokens = false, false
+		ec.pPreCancel, ec.pCancel, ec.pLate = 0, 0, 0
+		ec.numConns = 1
+		ec.writeCutAt, ec.stallAt, ec.writeTimeout = int64(2000+r.Intn(20000)), 0, 0
+		c.Add("flood_scenarios", 1)
 	}
 	res := runEcho(c, ec)
 	if res == nil {
